@@ -16,6 +16,7 @@ func main() {
 	flag.StringVar(&o.Tier, "tier", "quick", "quick|thorough")
 	flag.StringVar(&o.Child, "child", "", "path to vchild")
 	flag.StringVar(&o.VerifDir, "verif", "/verif", "verif dir")
+	flag.StringVar(&o.OutDir, "out", "", "where evidence/ and replays/ are written (default: the verif dir)")
 	flag.StringVar(&o.WorkDir, "work", "", "scratch dir")
 	flag.StringVar(&o.Replay, "replay", "", "replay file")
 	flag.Parse()
